@@ -2,6 +2,7 @@ package main
 
 import (
 	"fmt"
+	"os"
 	"sort"
 	"strings"
 	"syscall"
@@ -77,7 +78,7 @@ func programVerdict(s runner.Status) bool {
 func runC15(res *Result, d *Driver, tier string, seed uint64) {
 	res.Rule = "part A: real Context.GetString on this process' own memory (regions with PROT_NONE holes; strings at end-of-page±2, unterminated 4095/4096/4097/8192 bytes, NUL at 0, unmapped/odd addresses) vs Model.GetString.getString; " +
 		"part A': real clen/hasNull on random buffers vs the Go-lite evaluation of the regenerated functions and the hand model; " +
-		"part B: hostile probe scripts under the real ptrace runner with a file-tracing filter (garbage pointers, 64-bit garbage in int args, unknown/x32/negative syscall numbers, unreadable open_how, threads racing exit_group; the main process ending while forked children still run — the run must return within 15 s): verdict must be about the program, never Runner Error. " +
+		"part B: hostile probe scripts under the real ptrace runner with a file-tracing filter (garbage pointers, 64-bit garbage in int args, unknown/x32/negative syscall numbers, unreadable open_how, threads racing exit_group; the main process ending while forked children still run, vfork parents, names leading into symlink cycles — the run must return within 15 s): verdict must be about the program, never Runner Error. " +
 		"non-trivial = not the plain NUL-terminated in-page case; distinct = distinct (layout,address) / buffer / script."
 	rng := NewRng(seed, "C15", 1)
 	pg := ptracer.VerifPageSize()
@@ -334,6 +335,18 @@ func runC15(res *Result, d *Driver, tier string, seed uint64) {
 		"fork;fork;sleep 30000;endfork;sleep 30000;endfork;sleep 20;raise 11",
 		"fork;sleep 30000;endfork;fork;spin 30000;endfork;sleep 20;sys 2 bad 0;exit 0",
 	}
+	// vfork parents (suspended until the child execs or exits) and names that lead into symlink cycles (the kernel
+	// answers ELOOP): the tracer must keep going
+	lingering = append(lingering,
+		"vfork;exit 0;endfork;sleep 10;exit 7",
+		"vfork;sleep 30;exit 3;endfork;vfork;exit 0;endfork;exit 0",
+		"fork;vfork;exit 0;endfork;exit 0;endfork;wait;exit 0",
+		"symlink loop1 loop1;sys 2 s:loop1 0;sys 4 s:loop1/x bad;exit 0",
+		"symlink pb pa;symlink pa pb;sys 2 s:pa 0;sys 257 fdcwd64 s:pb/y 0 0;exit 0",
+		"mkdir dd;symlink dd/../dl dl;sys 2 s:dl 0;sys 2 s:dl/z 0;exit 0",
+	)
+	lingerDir, _ := os.MkdirTemp("", "verif-c15-links-")
+	defer os.RemoveAll(lingerDir)
 	nl := 1
 	if tier == "thorough" {
 		nl = 25
@@ -343,7 +356,8 @@ func runC15(res *Result, d *Driver, tier string, seed uint64) {
 			var pid int
 			ch := make(chan runner.Result, 1)
 			go func() {
-				r, _ := runPtraceProbe(RunSpec{Script: script, Filter: tracingFilter(), Timeout: 60 * time.Second, SyncFunc: func(p int) error { pid = p; return nil }})
+				wd, _ := os.MkdirTemp(lingerDir, "w")
+				r, _ := runPtraceProbe(RunSpec{Script: script, Filter: tracingFilter(), Timeout: 60 * time.Second, WorkDir: wd, SyncFunc: func(p int) error { pid = p; return nil }})
 				ch <- r
 			}()
 			res.Case("linger:"+script+itoa(rep), true, "lingering-children")
@@ -356,7 +370,7 @@ func runC15(res *Result, d *Driver, tier string, seed uint64) {
 				}
 			case <-time.After(15 * time.Second):
 				res.Mismatch(Mismatch{Kind: "oracle", What: "the tracer never stops making progress: the run must end once the verdict is decided (C15)", Input: script,
-					Impl: "Run did not return within 15 s although the main process ended after 20 ms (children of the program were still alive)", Oracle: "violates"})
+					Impl: "Run did not return within 15 s (the script itself ends within a fraction of a second)", Oracle: "violates"})
 				if pid > 0 {
 					syscall.Kill(-pid, syscall.SIGKILL)
 				}
